@@ -144,6 +144,8 @@ def make_pair(case):
     mode = case["mode"]
     if mode == "same":
         t1 = t0.copy(name="T1")
+    elif mode == "self":
+        t1 = t0  # the very same tree object on both sides
     elif mode == "edit":
         t1 = t0.copy(name="T1")
         edit(rng, t1, rng.randint(0, 10))
@@ -352,7 +354,7 @@ def shards(tier, seed):
 def run_shard(spec, res):
     rng = rng_for(spec["seed"], "c11-shard", spec["i"])
     for j in range(spec["count"]):
-        mode = rng.choice(["same", "edit", "edit", "edit", "edit", "indep", "indep"])
+        mode = rng.choice(["same", "edit", "edit", "edit", "edit", "indep", "indep", "self" if j % 3 == 0 else "edit"])
         run_case({"seed": rng.randrange(10**9), "mode": mode}, res)
         if res.expired():
             break
